@@ -413,7 +413,22 @@ func ruleC17Copy(cx *Ctx) {
 	}
 	slotOf := func(v ssa.Value) (base, idx ssa.Value, ok bool) {
 		ia, isIA := v.(*ssa.IndexAddr)
-		if !isIA || !sameField(fieldOf(ia.X), buffers) {
+		if !isIA {
+			return nil, nil, false
+		}
+		if ms, isMS := ia.X.(*ssa.MakeSlice); isMS {
+			// the new table's slice is filled before the table literal is built around it: the table is the object whose
+			// buffers field receives this slice
+			for _, u := range usesOf(ms) {
+				if st, isSt := u.(*ssa.Store); isSt && st.Val == ssa.Value(ms) {
+					if fa, isFA := st.Addr.(*ssa.FieldAddr); isFA && sameField(fieldOf(fa), buffers) {
+						return fa.X, ia.Index, true
+					}
+				}
+			}
+			return nil, nil, false
+		}
+		if !sameField(fieldOf(ia.X), buffers) {
 			return nil, nil, false
 		}
 		fa, _ := stripLoad(ia.X).(*ssa.FieldAddr)
